@@ -48,6 +48,7 @@ Step(t, e) ==
     [] e.ev = "end" -> IF t.open = {} THEN t0 ELSE Viol(t0, e, "a lookup of a registered name never returned")
     \* (the server task panics when the simulation shuts down while it waits for further connections; C20 does
     \* not speak about shutdown: a crash that matters shows up as a lookup that never returns)
+    [] e.ev = "hang" -> Viol(t0, e, "a lookup never returned: the scenario never ended (" \o e.why \o ")")
     [] e.ev = "panic" -> t0
     [] OTHER -> t0
 Init == l = 1 /\ s = Init0
